@@ -986,8 +986,19 @@ func c02SliceSummary(c *Ctx, g *ssa.Function, Ps []ssa.Value, needDispatch bool,
 		except[s.At] = true
 	}
 	ok := true
+	siteErr := map[ssa.Value]bool{}
+	for _, s := range sites {
+		if s.Err != nil {
+			for a := range c02MustAliases(s.Err) {
+				siteErr[a] = true
+			}
+		}
+	}
 	if ErrResultIndex(g.Signature) >= 0 {
 		for _, a := range c02NilableAtoms(g) {
+			if siteErr[a.Val] || siteErr[strip(a.Val)] {
+				continue // the wait helper's own error is returned: nil means waited
+			}
 			if !AtomMustPass(a, ct) {
 				ok = false
 			}
@@ -1753,6 +1764,11 @@ func (pa *c02PermitAnalysis) run(fn *ssa.Function, k int, entry c02Permit, depth
 		}
 	})
 
+	stepTable := c02StepTable(fn)
+	if stepTable != nil && !stepTable.regionOK(isRegion) {
+		c.Undecided(R4, tn+"|step-table", stepTable.Loop.Call.Pos(), "a step table starts the region in a step that is not the last one; the permit state cannot be followed")
+		stepTable = nil
+	}
 	effects := map[ssa.Instruction]bool{}
 	for _, p := range storageEffects(fn) {
 		effects[p.(ssa.Instruction)] = true
@@ -1793,6 +1809,9 @@ func (pa *c02PermitAnalysis) run(fn *ssa.Function, k int, entry c02Permit, depth
 			}
 			if n == nGo {
 				return kBlock, nil, 0
+			}
+			if stepTable != nil && in == ssa.Instruction(stepTable.Loop.Call) && stepTable.Blocks {
+				return kBlock, nil, 0 // the steps of the table dispatch / wait
 			}
 			// the call of a function parameter for which the caller handed a closure that blocks
 			if work != nil && !call.Common().IsInvoke() && c02RootedIn(call.Common().Value, workParams) && c02ReachesBlocking(work) {
@@ -1897,6 +1916,10 @@ func (pa *c02PermitAnalysis) run(fn *ssa.Function, k int, entry c02Permit, depth
 				env.user.s = ns
 			}
 		}
+		if stepTable != nil && e == stepTable.Loop.Done && stepTable.StartLast {
+			env.user.s = c02Held // every step ran, the last one being a successful region.Start()
+			env.user.touched = true
+		}
 		return true
 	}
 	ex.run(entry)
@@ -1928,6 +1951,9 @@ func (pa *c02PermitAnalysis) run(fn *ssa.Function, k int, entry c02Permit, depth
 		mc, ok := ins.(*ssa.MakeClosure)
 		if !ok || handled[mc] {
 			return
+		}
+		if stepTable != nil && stepTable.startAt >= 0 && stepTable.Loop.Steps[stepTable.startAt] == ssa.Value(mc) {
+			return // the region.Start step of the table, accounted for on its Done edge
 		}
 		for _, bnd := range mc.Bindings {
 			captured := isRegion(bnd)
@@ -3486,6 +3512,13 @@ func (ca *c02CtxAnalysis) run(f *ssa.Function, ok map[ssa.Value]bool, depth int)
 			c.Undecided(R, key, pos, what+": cannot tell whether its context derives from the task's context")
 		}
 	}
+	if st := c02StepTable(f); st != nil {
+		for _, w := range st.Closures {
+			if c02ReachesBlocking(w.Fn.(*ssa.Function)) {
+				ca.run(w.Fn.(*ssa.Function), ca.capturedContexts(w, ok), depth+1)
+			}
+		}
+	}
 	AllInstrs(f, func(in ssa.Instruction) {
 		switch x := in.(type) {
 		case *ssa.Select:
@@ -3808,4 +3841,158 @@ func (ca *c02CtxAnalysis) capturedContexts(mc *ssa.MakeClosure, ok map[ssa.Value
 		}
 	}
 	return okIn
+}
+
+// ---------- step tables (impl-D's c11StepLoops) ----------
+
+// c02Steps: `for _, step := range []func() error{ dispatch, wait, region.Start } { if err := step(); err != nil { return err } }`
+// in fn: the steps are fn's straight-line code; the Done edge means every step returned nil.
+type c02Steps struct {
+	Loop      c11StepLoop
+	Closures  []*ssa.MakeClosure // the steps that are closures of fn, in order
+	Index     map[*ssa.MakeClosure]int
+	Blocks    bool // some step dispatches or waits
+	StartLast bool // the last step is the method value region.Start
+	startAt   int
+	startRecv ssa.Value
+	onlyNil   bool // only the nil edge of step()'s error continues the loop
+}
+
+func (st *c02Steps) regionOK(isRegion func(ssa.Value) bool) bool {
+	if st.startAt < 0 {
+		return true
+	}
+	return st.StartLast && st.startRecv != nil && isRegion(st.startRecv)
+}
+
+var c02StepCache = map[*ssa.Function]*c02Steps{}
+
+func c02StepTable(fn *ssa.Function) *c02Steps {
+	if st, ok := c02StepCache[fn]; ok {
+		return st
+	}
+	var out *c02Steps
+	for _, sl := range c11StepLoops(fn) {
+		st := &c02Steps{Loop: sl, Index: map[*ssa.MakeClosure]int{}, startAt: -1}
+		hasGo := false
+		for i, s := range sl.Steps {
+			if recv := c11BoundMethodStep(s, "Start"); recv != nil {
+				st.startAt, st.startRecv = i, recv
+				continue
+			}
+			mc, ok := s.(*ssa.MakeClosure)
+			if !ok {
+				continue
+			}
+			w := mc.Fn.(*ssa.Function)
+			if w.Parent() != fn {
+				continue
+			}
+			st.Closures = append(st.Closures, mc)
+			st.Index[mc] = i
+			if c02ReachesBlocking(w) {
+				st.Blocks = true
+			}
+			if len(CallsTo(w, nGo)) > 0 {
+				hasGo = true
+			}
+		}
+		st.StartLast = st.startAt == len(sl.Steps)-1
+		// the loop continues only on the nil edge of step()'s error
+		if e := ErrOf(sl.Call); e != nil {
+			nilE, _, _ := NilTests(fn, c02MustAliases(e))
+			hdr := sl.Loop.Header.Instrs[0]
+			st.onlyNil = len(nilE) > 0 && !reach(sl.Call.Block(), instrIndex(sl.Call)+1, hdr, newCut().Edges(nilE...))
+		}
+		if hasGo && st.onlyNil {
+			out = st
+		}
+	}
+	c02StepCache[fn] = out
+	return out
+}
+
+// c02R1StepTable: R1 for a traversal function whose dispatch and wait are
+// steps of a table: a step dispatches the captured successors, a LATER step
+// waits for all of them (checked as a wait helper), and every push of the
+// traversal function lies behind len(successors)==0 or the table's Done edge.
+func c02R1StepTable(c *Ctx, T *ssa.Function, st *c02Steps) {
+	const R1 = "C02.R1.wait-before-push"
+	tn := FnName(T)
+	cellOfLoad := func(w *ssa.MakeClosure, v ssa.Value) *ssa.Alloc {
+		for _, r := range Roots(v) {
+			u, ok := r.(*ssa.UnOp)
+			if !ok || u.Op != token.MUL {
+				continue
+			}
+			fv, ok := u.X.(*ssa.FreeVar)
+			if !ok {
+				continue
+			}
+			g := w.Fn.(*ssa.Function)
+			for j, f2 := range g.FreeVars {
+				if f2 == fv && !freeVarWritten(g, fv) {
+					a, _ := w.Bindings[j].(*ssa.Alloc)
+					return a
+				}
+			}
+		}
+		return nil
+	}
+	var cell *ssa.Alloc
+	dispatchAt := -1
+	for _, w := range st.Closures {
+		for _, g := range CallsTo(w.Fn.(*ssa.Function), nGo) {
+			if a := cellOfLoad(w, variadicArg(g)); a != nil {
+				cell, dispatchAt = a, st.Index[w]
+				r := c02ErrFlow(g, ErrFlowOpts{}, 0)
+				c.Check(R1, tn+"|dispatch-error-returned", g.Pos(), r.OK, r.How+r.Detail)
+			}
+		}
+	}
+	if cell == nil {
+		c.LostAnchor(R1, tn+": the slice dispatched by a step of the table")
+		return
+	}
+	waited := false
+	for _, w := range st.Closures {
+		g := w.Fn.(*ssa.Function)
+		if st.Index[w] <= dispatchAt || !c02ReachesTryCommit(g) {
+			continue
+		}
+		var Ps []ssa.Value
+		for j, bnd := range w.Bindings {
+			if bnd == ssa.Value(cell) && !freeVarWritten(g, g.FreeVars[j]) {
+				for _, ref := range *g.FreeVars[j].Referrers() {
+					if ld, ok := ref.(*ssa.UnOp); ok && ld.Op == token.MUL {
+						Ps = append(Ps, ld)
+					}
+				}
+			}
+		}
+		if len(Ps) == 0 {
+			continue
+		}
+		c.OK(R1, tn+"|dispatch-before-wait", w.Pos(), "the dispatching step precedes the waiting step in the table")
+		c02SliceSummary(c, g, Ps, false, 1)
+		waited = true
+	}
+	if !waited {
+		c.Violation(R1, tn+"|wait-loop", T.Pos(), "no step after the dispatching step waits for the dispatched successors")
+	}
+	ct := newCut().Edges(st.Loop.Done)
+	for _, s := range storesTo(cell) {
+		ct.Edges(lenZeroEdges(T, s.Val)...)
+	}
+	pushes := c02Pushes(T, map[ssa.Instruction]bool{ssa.Instruction(st.Loop.Call): true})
+	if len(pushes) == 0 {
+		c.LostAnchor(R1, tn+": no push effect found")
+	}
+	for _, p := range pushes {
+		ok := waited && MustPass(p.(ssa.Instruction), ct)
+		c.Check(R1, tn+"|push:"+CalleeName(p), p.Pos(), ok,
+			ifelse(ok, "every path to the push takes the len(successors)==0 edge or the 'all steps succeeded' exit of the step table",
+				"a path reaches this push effect without the step table (dispatch, wait) having completed"))
+		c.Check(R1, tn+"|push-outside-wait-loop:"+CalleeName(p), p.Pos(), !st.Loop.Loop.Contains(p.(ssa.Instruction)), "push effect inside the step loop")
+	}
 }
